@@ -21,7 +21,7 @@ func init() { Registry["C17"] = C17 }
 const c17Mod = "example.com/c17-mod.z"
 
 // package name -> directory below the module root
-var c17Dirs = map[string]string{"good": "good", "goodffi": "goodffi", "partial": "partial", "allbad": "allbad", "tagged": "tagged", "nested": "sub.d/p-q", "latebad": "latebad"}
+var c17Dirs = map[string]string{"good": "good", "goodffi": "goodffi", "partial": "partial", "allbad": "allbad", "tagged": "tagged", "nested": "sub.d/p-q", "latebad": "latebad", "earlybad": "earlybad"}
 
 func c17Sources(pkg string, ver int) map[string]string {
 	switch pkg {
@@ -42,6 +42,12 @@ func c17Sources(pkg string, ver int) map[string]string {
 			"t.go":         "package tagged\n\nfunc Use() uint64 {\n\treturn Variant()\n}\n",
 			"t_goose.go":   "//go:build goose\n\npackage tagged\n\nfunc Variant() uint64 {\n\treturn 4242\n}\n",
 			"t_nogoose.go": "//go:build !goose\n\npackage tagged\n\nfunc Variant() uint64 {\n\treturn 1717\n}\n"}
+	case "earlybad":
+		// the declaration that does not translate lives in the file that sorts first; the last file is clean
+		return map[string]string{
+			"a_first.go": "package earlybad\n\nfunc Ok1() uint64 {\n\treturn 1\n}\n\nfunc Bad(x uint64) uint64 {\n\tdefer func() {}()\n\treturn x\n}\n",
+			"m_mid.go":   "package earlybad\n\nfunc Ok2() uint64 {\n\treturn Ok1() + 2\n}\n",
+			"z_last.go":  "package earlybad\n\nfunc Ok3() uint64 {\n\treturn Ok2() + 3\n}\n"}
 	case "nested":
 		return map[string]string{"n.go": "package p_q\n\nfunc N() uint64 {\n\treturn 9\n}\n"}
 	case "latebad":
@@ -77,6 +83,7 @@ type c17Inv struct {
 	Pats   []string `json:"pats"`
 	Ign    bool     `json:"ign"`
 	RelOut bool     `json:"relOut"`
+	SubDir bool     `json:"subDir"`
 	Exit   int      `json:"exit"`
 	Tree   map[string]struct {
 		V    int    `json:"v"`
@@ -217,6 +224,19 @@ func C17(c *ev.Ctx) {
 	} else {
 		c.Violation("c17.partial-missing", "-ignore-errors on package partial wrote no file", nil)
 	}
+	if b := ref["earlybad/1/partial"]; b != nil {
+		defs := regexp.MustCompile(`(?m)^Definition (\w+)`).FindAllStringSubmatch(string(b), -1)
+		var names []string
+		for _, d := range defs {
+			names = append(names, d[1])
+		}
+		sort.Strings(names)
+		if strings.Join(names, ",") != "Ok1,Ok2,Ok3" {
+			c.Violation("c17.partial-content", fmt.Sprintf("-ignore-errors on package earlybad (failing declaration in the first of three files): the file defines %v, expected [Ok1 Ok2 Ok3]", names), map[string]string{"emitted.v": string(b)})
+		}
+	} else {
+		c.Violation("c17.partial-missing", "package earlybad (failing declaration in the first of three files): no partial reference; the command reported no error for it or wrote nothing with -ignore-errors", nil)
+	}
 	// ---- replay of the simulated invocation sequences ----
 	replayed, invs := 0, 0
 	old := time.Now().Add(-48 * time.Hour)
@@ -253,6 +273,12 @@ func C17(c *ev.Ctx) {
 				return nil
 			})
 			args := []string{"-dir", root}
+			patPrefix := "./"
+			if e.SubDir {
+				// a directory inside the module: go.mod is two levels up, patterns are written relative to -dir
+				args = []string{"-dir", filepath.Join(root, "sub.d", "p-q")}
+				patPrefix = "../../"
+			}
 			if e.RelOut {
 				args = append(args, "-out", "outdir") // relative to the invocation's working directory
 			} else {
@@ -265,7 +291,7 @@ func C17(c *ev.Ctx) {
 				args = append(args, "./nomatch/...")
 			}
 			for _, pk := range e.Pats {
-				args = append(args, "./"+c17Dirs[pk])
+				args = append(args, patPrefix+c17Dirs[pk])
 			}
 			msg, code := run(cwd, args...)
 			invs++
@@ -319,7 +345,7 @@ func C17(c *ev.Ctx) {
 			}
 			if bad != "" {
 				hb, _ := json.MarshalIndent(h[:si+1], "", " ")
-				c.Violation("c17.invocation", fmt.Sprintf("invocation %d (patterns %v, -ignore-errors=%v, relative -out=%v): %s\n%s", si+1, e.Pats, e.Ign, e.RelOut, bad, firstLines(msg, 6)),
+				c.Violation("c17.invocation", fmt.Sprintf("invocation %d (patterns %v, -ignore-errors=%v, relative -out=%v, -dir inside the module=%v): %s\n%s", si+1, e.Pats, e.Ign, e.RelOut, e.SubDir, bad, firstLines(msg, 6)),
 					map[string]string{"history.json": string(hb), "stderr.txt": msg, "tree.txt": listTree(absOut)})
 				failed = true
 				break
